@@ -36,7 +36,6 @@ Don't use this for: integer constraints (use MILP), non-linear objectives
 can struggle with badly scaled coefficients).
 """
 
-import sys
 from array import array
 from collections.abc import Sequence
 
@@ -128,8 +127,8 @@ def _phase1(matrix, basis, basis_set, m, n, eps, max_iter):
             for j in range(n_cols):
                 matrix[-1][j] -= matrix[i][j]
 
-    # Total infeasibility at the start: the rounding residue of the pivots is relative to it (a few ulps), so
-    # the test below allows for that - but for no more: a multiple of eps would accept real infeasibility
+    # Total infeasibility at the start: what the pivots leave of it is judged relative to it, with the caller's eps
+    # (the residue grows with the intermediate tableau values, a few ulps of this sum are not enough)
     infeasibility = -matrix[-1][-1]
 
     status, iters, matrix, basis, basis_set = _phase2(matrix, basis, basis_set, m, eps, max_iter)
@@ -137,7 +136,7 @@ def _phase1(matrix, basis, basis_set, m, n, eps, max_iter):
     if status == Status.MAX_ITER:
         return Status.MAX_ITER, iters, matrix, basis, basis_set
 
-    if matrix[-1][-1] < -max(eps, 64 * sys.float_info.epsilon * infeasibility):
+    if matrix[-1][-1] < -eps * max(1.0, infeasibility):
         return Status.INFEASIBLE, iters, matrix, basis, basis_set
 
     # Pivot out any artificial variables still in basis before removing columns
